@@ -227,6 +227,10 @@ class Engine:
     def as_V(self, x):
         if x.k == "obj":
             return x.t
+        if x.k == "py" and isinstance(x.t, ExtRef) and x.t.recv is not None and x.t.recv.k in ("V", "obj"):
+            # data attribute of a dynamic value (e.g. signature.parameters): an opaque function of the receiver
+            f = z3.Function(f"ext:attr{x.t.name}/1", V, V)
+            return f(self.as_V(x.t.recv))
         if x.k == "sdict":
             m = T.mempty
             for k_, v in x.t.items():
@@ -683,6 +687,9 @@ class Engine:
                 return z3.BoolVal(False)
             return z3.And(*[self.eq(x, y, fr) for x, y in zip(a.t, b.t)]) if a.t else z3.BoolVal(True)
         if a.k == "py" or b.k == "py":
+            ext_const = lambda v: v.k == "py" and isinstance(v.t, ExtRef) and v.t.recv is None
+            if (ext_const(a) or a.k != "py") and (ext_const(b) or b.k != "py"):
+                return self.as_V(a) == self.as_V(b)      # external constants (np.nan, ...) are opaque stable values
             if a.k == "py" and b.k == "py":
                 return z3.BoolVal(a.t is b.t or a.t == b.t)
             if a.k == "py" and a.meta and "V" in a.meta:
@@ -914,7 +921,7 @@ class Engine:
         rng = z3.And(0 <= i, i < spec.length)
         st.assume(z3.ForAll([i], z3.Implies(rng, z3.And(T.mhas(d, k), T.mat(d, k) == v)), patterns=[z3.MultiPattern(k)] if False else [T.mhas(d, k)]))
         kk = z3.Const(fresh_name("kk"), V)
-        wit = z3.Function(fresh_name("dwit"), V, Int)
+        wit = z3.Function(fresh_name("dwit"), V, z3.IntSort())
         i2 = wit(kk)
         st.assume(z3.ForAll([kk], z3.Implies(T.mhas(d, kk), z3.And(0 <= i2, i2 < spec.length, z3.substitute(k, (i, i2)) == kk)),
                             patterns=[T.mhas(d, kk)]))
